@@ -103,8 +103,14 @@ def generic_worker(task: Tuple[Any, ...]) -> Stats:
             specs = H.materialize(h2, scale=opts["scale"], row_order=row_order, price_scale=opts.get("price_scale", 1), **({"base": opts["base"]} if opts.get("base") else {}))
             if specs is None:
                 continue
+            run_cfg = cfg
+            if opts.get("from_last_day"):
+                from rp2verif.models.lots import parse_ts
+
+                last = max(parse_ts(s2["timestamp"]).date() for s2 in specs)
+                run_cfg = C.configuration("us", from_date=last, **getattr(mod, "CFG_KW", {"allow_negative_balances": True}))
             try:
-                input_data = C.build_input(cfg, specs)
+                input_data = C.build_input(run_cfg, specs)
             except Exception as exc:  # pylint: disable=broad-except
                 for sch in schedules:
                     mod.judge(st, h2, specs, sch, C.Outcome(None, exc, None), label)
@@ -116,7 +122,7 @@ def generic_worker(task: Tuple[Any, ...]) -> Stats:
                         # another asset of the same run is computed first with the SAME engine and method objects (as rp2_main does);
                         # its rows carry the same spreadsheet row numbers
                         C.compute_tax(cfg, eng, C.build_input(cfg, opts["prelude"], "B2"))
-                    computed = C.compute_tax(cfg, eng, input_data)
+                    computed = C.compute_tax(run_cfg, eng, input_data)
                     out = C.Outcome(computed, None, input_data)
                 except Exception as exc:  # pylint: disable=broad-except
                     out = C.Outcome(None, exc, input_data)
